@@ -15,6 +15,17 @@ package nsqd
 //@ ghost lHandMsg *Message
 //@ ghost lHandDeferred bool
 //@ ghost lHandDelay int
+// (round 3, area A) round completeness of the distribution loop. r3aPauseChecks counts the Topic.IsPaused calls;
+// r3aHandSawPauseChecks is its value at the most recent hand-off. The pump re-reads the pause flag whenever it rebuilds a
+// non-empty channel list, so "no pause check since the last hand-off" means "chans is still the list of that round".
+//@ ghost r3aPauseChecks int
+//@ ghost r3aHandSawPauseChecks int
+//@ ghostgroup lTPauseFor, r3aPauseChecks
+//@ ghostgroup lHandCalls, r3aHandSawPauseChecks
+// after every completed round the most recent hand-off went to the LAST channel of the list; with [each-channel-served]
+// (hand-off number k of a round goes to chans[k]) this is: in one round EVERY channel of chans gets the message
+//@ pred r3aRoundComplete(chans []*Channel, base int) := lHandCalls > base && r3aHandSawPauseChecks == r3aPauseChecks && len(chans) > 0 ==> lHandChan == chans[len(chans)-1]
+//@ pred r3aHandMonotone(base int) := lHandCalls >= base && (lHandCalls > base ==> r3aHandSawPauseChecks <= r3aPauseChecks)
 
 //@ pred lChansOK(chans []*Channel, n int) := forall k int :: {chans[k]} 0 <= k && k < n ==> flowChan(chans[k])
 // the copy handed to a channel carries the same id, body, timestamp and deferral as the received message
@@ -38,13 +49,17 @@ package nsqd
 //@   loop 2
 //@     invariant[chans-ok] lChansOK(chans, len(chans))
 //@     invariant[pause-guard] lSourcesGuarded(t, len(chans), memoryMsgChan != nil || backendChan != nil)
+//@     invariant[hand-offs-monotone] r3aHandMonotone(old(lHandCalls))
+//@     invariant[round-complete] r3aRoundComplete(chans, old(lHandCalls))
 //@   loop 3
 //@     invariant[chans-ok] lChansOK(chans, len(chans))
+//@     invariant[hand-offs-monotone] r3aHandMonotone(old(lHandCalls))
 //@   loop 4
 //@     assume msg != nil
 //@     invariant[chans-ok] lChansOK(chans, len(chans))
 //@     invariant[pause-guard] lSourcesGuarded(t, len(chans), memoryMsgChan != nil || backendChan != nil)
 //@     invariant[each-channel-served] rangeindex >= 0 ==> lHandChan == chans[rangeindex]
+//@     invariant[round-in-progress] rangeindex < len(chans) && r3aHandMonotone(old(lHandCalls)) && (rangeindex >= 0 ==> lHandCalls > old(lHandCalls) && r3aHandSawPauseChecks == r3aPauseChecks)
 //@     invariant[same-id] rangeindex >= 0 ==> lHandMsg != nil && (forall j int :: {lHandMsg.ID[j]} 0 <= j && j < 16 ==> lHandMsg.ID[j] == msg.ID[j])
 //@     invariant[same-content] rangeindex >= 0 ==> lHandMsg.Body == msg.Body && lHandMsg.Timestamp == msg.Timestamp && lHandMsg.deferred == msg.deferred
 //@     invariant[deferred-iff-delay] rangeindex >= 0 ==> lHandDeferred == (msg.deferred != 0) && (lHandDeferred ==> lHandDelay == msg.deferred)
